@@ -284,9 +284,13 @@ def fields_read(t):
 def rule_H(F, R):
     lib = F.lib()
     # BDD::get_hash hashes the diagram structurally (the derived Hash of `self`), so that equal diagrams hash equal wherever they live
-    gh = lib.thir.get('rsbdd::bdd::BDD::get_hash')
+    gh = lib.ithir.get('rsbdd::bdd::BDD::get_hash')
     if gh is not None:
         hs_calls = [e for e in walk(gh['body']) if e['k'] == 'Call' and callee_decl(e) == 'std::hash::Hash::hash']
+        one = [e for e in walk(gh['body']) if e['k'] == 'Call' and callee_decl(e) == 'std::hash::BuildHasher::hash_one']
+        if not hs_calls and len(one) == 1:
+            # BuildHasher::hash_one(&builder, self): the same structural hash in one call
+            hs_calls = [{'args': [one[0]['args'][1]], 'callee': {'res': 'BDD'}, 'k': 'Call'}]
         okh = len(hs_calls) == 1
         if okh:
             a0 = hs_calls[0]['args'][0]
@@ -296,7 +300,7 @@ def rule_H(F, R):
         R.count('H:get_hash'); R.obligation(okh, 'H get_hash')
         if not okh: R.violation('rsbdd::bdd::BDD::get_hash / H / structural hash', 'H', 'get_hash must feed the diagram itself (its derived, structural Hash) to the hasher - not an address or a part of it: equal diagrams must hash equal')
     def body(tr, m):
-        return lib.thir.get(NS + tr + '>::' + m)
+        return lib.ithir.get(NS + tr + '>::' + m)
     eq = body('std::cmp::PartialEq', 'eq'); cmp = body('std::cmp::Ord', 'cmp'); hs = body('std::hash::Hash', 'hash'); pc = body('std::cmp::PartialOrd', 'partial_cmp')
     for nm, t in (('eq', eq), ('cmp', cmp), ('hash', hs), ('partial_cmp', pc)):
         R.count('H:impl-bodies')
